@@ -24,7 +24,9 @@ def unescape (s : String) : String :=
   let bs := ByteArray.mk (unescapeBytes s.toList).toArray
   match String.fromUTF8? bs with
   | some r => r
-  | none => String.join (bs.toList.map fun b => "\\x" ++ String.singleton (Nat.digitChar (b.toNat / 16)) ++ String.singleton (Nat.digitChar (b.toNat % 16)))
+  | none => String.join (bs.toList.map fun b =>
+      if b.toNat < 128 then String.singleton (Char.ofNat b.toNat)     -- ASCII stays itself (':' must survive)
+      else "\\x" ++ String.singleton (Nat.digitChar (b.toNat / 16)) ++ String.singleton (Nat.digitChar (b.toNat % 16)))
 
 abbrev Line := List (String × String)
 
